@@ -161,6 +161,7 @@ class Inst:
         cpu.take_reset()
         cpu.registers.sctlr.m = 0
         rng = random.Random(self.regseed)
+        cpu.registers.cpsr.value = (cpu.registers.cpsr.value & 0x0FFFFFFF) | (rng.getrandbits(4) << 28)   # NZCV from the seed
         for n in range(13):
             cpu.registers.set(n, scen.reg_value(rng))
         cpu.registers.set(13, 0x7000)
@@ -318,8 +319,13 @@ def run_shard(spec):
             snap = child(sc_snapshot, cfg, prog, thumb, regseed, rng.randrange(0, 8))
             if snap is None:
                 continue
-            age_prog = gen_program(rng, not thumb, seed=spec['seed'])
-            ta = child(sc_from_snapshot, cfg, snap, age_prog, not thumb, rng.getrandbits(32), rng.randrange(3, 25), 10)
+            # the ageing run is either unrelated code or the SAME program from different register/flag values (so that a
+            # memo keyed by part of the input - an address, an immediate - is filled with stale answers)
+            if rng.random() < 0.5:
+                age_prog, age_thumb = gen_program(rng, not thumb, seed=spec['seed']), not thumb
+            else:
+                age_prog, age_thumb = prog, thumb
+            ta = child(sc_from_snapshot, cfg, snap, age_prog, age_thumb, rng.getrandbits(32), rng.randrange(3, 25), 10)
             tb = child(sc_from_snapshot, cfg, snap, prog, thumb, regseed, 0, 10)
             if ta is None or tb is None:
                 continue
